@@ -38,6 +38,7 @@ Rejects(w, op) ==
       [] op.k = "integral_match" -> op.trule \notin Rules \/ op.rrule \notin Rules
       [] op.k = "interpolate_grid" -> op.q[1] # w.x[1] \/ Last(op.q) # Last(w.x) \/ op.method \notin {"linear", "constant", "cubic", "spline"}
       [] op.k = "interpolate_n" -> op.method \notin {"linear", "constant", "cubic", "spline"}
+      [] op.k = "interpolate_none" -> TRUE                \* neither a number of samples nor a grid was given
       [] OTHER -> FALSE
 
 \* outside the documented precondition of the operation: explored, never judged
